@@ -2099,6 +2099,29 @@ func w1Gen(c *simrt.Choice, prop, tier string) any {
 		// join/leave publication errors (C07's pairing oracle assumes they are delivered)
 		cfg.JoinLeaveFailPm = []int{0, 0, 300}[c.Intn(3)]
 	}
+	if (prop == "C04" || prop == "C05") && c.Intn(10) == 0 {
+		// slow-first-subscribe scenario (drawn last): the channel's first subscriber holds
+		// the per-channel subscription lock for a whole slow broker round trip (50 ms or
+		// 6.5 s); a server-side subscribe of another connection reserves the channel and
+		// queues behind that lock, and a server-side unsubscribe of the same channel for
+		// that connection arrives meanwhile: with the long round trip its wait gate (5 s)
+		// times out, the connection is closed and the reservation dropped before the
+		// subscribe registers in the hub and reaches its commit point
+		ch0 := sc.Channels[0]
+		cfg.SubDelayPm = 1000
+		for len(sc.Clients) < 2 {
+			i := len(sc.Clients)
+			sc.Clients = append(sc.Clients, w1Client{Proto: []string{"json", "protobuf"}[c.Intn(2)], User: "u" + strconv.Itoa(i%2)})
+		}
+		sc.Clients[0].Ops = []w1Op{{K: "connect"}, {K: "sub", Ch: ch0}, {K: "sleep", DelayUs: 9000000}}
+		sc.Clients[1].Ops = []w1Op{{K: "connect"}, {K: "sleep", DelayUs: 9000000}}
+		sc.Clients[1].ConnSubs = nil
+		first := []string{"nsub", "csub"}[c.Intn(2)]
+		second := []string{"nunsub", "cunsub"}[c.Intn(2)]
+		sc.Admins = append(sc.Admins,
+			[]w1Op{{K: "sleep", DelayUs: 100000}, {K: first, Ch: ch0, C: 1}},
+			[]w1Op{{K: "sleep", DelayUs: []int{300000, 2000000}[c.Intn(2)]}, {K: second, Ch: ch0, C: 1}})
+	}
 	return sc
 }
 
@@ -2208,6 +2231,15 @@ func init() {
 				return false
 			}
 			return true
+		},
+		// C04 / C05 judge settled states only: their one long stall outlasts the 5 s
+		// unsubscribe wait gate (a subscribe descheduled between its reservation and its
+		// hub registration while the unsubscribe waiting for it times out)
+		LongStallMs: func(prop string) int {
+			if prop == "C04" || prop == "C05" {
+				return 6500
+			}
+			return 0
 		},
 		Nontrivial: func(prop string, r *simrt.Result) bool {
 			return r.Probes["nontrivial:"+prop] > 0
